@@ -118,3 +118,49 @@ func GovcBidiagDense22() { govcBidiag(2, 2, false) }
 func GovcBidiagDense32() { govcBidiag(3, 2, false) }
 func GovcBidiagDense33() { govcBidiag(3, 3, false) }
 func GovcBidiagReal32()  { govcBidiag(3, 2, true) }
+
+// 4x4 input built from 3-4-5 triples scaled by symbolic factors: every norm taken by the algorithm is
+// the square root of a perfect square, so that the exact algebra stays small, while two row
+// reflections that do not commute are accumulated into V (with fewer than four columns there is
+// only one, and V = V').
+func govcBidiagPyth44(real bool) {
+  n := 4
+  s, t, u, g, w := govcSym("s"), govcSym("t"), govcSym("u"), govcSym("g"), govcSym("w")
+  a0 := []float64{
+    s, 3*t, 4*t, 0,
+    0, 3*u, 4*u, g,
+    0, 0, 0, 3*w,
+    0, 0, 0, 4*w}
+  var a Matrix
+  if real {
+    a = NullDenseReal64Matrix(n, n)
+  } else {
+    a = NullDenseFloat64Matrix(n, n)
+  }
+  for i := 0; i < n; i++ {
+    for j := 0; j < n; j++ {
+      a.At(i, j).SetFloat64(a0[i*n+j])
+    }
+  }
+  b, uu, v, err := Run(a, ComputeU{true}, ComputeV{true})
+  if err != nil {
+    govcCheck("no-error", false)
+    return
+  }
+  bv, _, _ := govcGet(b)
+  uv, _, _ := govcGet(uu)
+  vv, _, _ := govcGet(v)
+  govcOrthonormalCols("U'U=I", uv, n, n)
+  govcOrthonormalCols("V'V=I", vv, n, n)
+  for i := 0; i < n; i++ {
+    for j := 0; j < n; j++ {
+      if j < i || j > i+1 {
+        govcCheckEq(fmt.Sprintf("B-bidiagonal[%d,%d]", i, j), bv[i*n+j], 0.0)
+      }
+    }
+  }
+  govcEqMat("UB=AV", govcMul(uv, n, n, bv, n), govcMul(a0, n, n, vv, n), n, n)
+}
+
+func GovcBidiagPyth44()     { govcBidiagPyth44(false) }
+func GovcBidiagPyth44Real() { govcBidiagPyth44(true) }
